@@ -225,6 +225,11 @@ struct Gen {
   int64_t pick_p(uint64_t n, bool odd) {
     int64_t p;
     uint64_t x = r.below(100);
+    if (x < 15) {
+      static const int64_t small[] = {1, 3, 5, 7, -1, -3, 2, 4};
+      p = small[r.below(odd ? 6 : 8)];
+      return p;
+    }
     if (x < 60)
       p = (int64_t)r.below(2 * n);
     else if (x < 80)
@@ -342,6 +347,30 @@ struct Gen {
         break;
       }
       case OP_NORMALIZE: {
+        if (r.chance(25, 100)) {
+          // many limbs, every digit at the boundary: the carry of the lowest limb has to travel all the way up, also
+          // through limbs that are dropped because res is shorter
+          uint64_t k = (uint64_t)r.range(1, 62), asz = (uint64_t)r.range(6, 16);
+          Slot s0;
+          s0.type = T_ZV;
+          s0.mod = mod;
+          s0.n = n;
+          s0.size = asz;
+          s0.sl = pick_stride(n);
+          s0.input = 1;
+          s0.pattern = PAT_CARRY;
+          s0.bits = (int)k;
+          s0.nnz = (int)asz;
+          int a = add_slot(s0);
+          M.load_input(a);
+          uint64_t rs = r.below(asz + 1);
+          if (!cfg.zero_sizes && rs == 0) rs = 1;
+          if (r.chance(1, 4)) rs = asz + r.below(3);
+          set(0, new_out(T_ZV, mod, rs), rs);
+          set(1, a, asz);
+          c.p[0] = k;
+          break;
+        }
         int a = src_zv(mod, 61);
         uint64_t rs;
         int res = out_or_alias(T_ZV, a, &rs);
@@ -836,7 +865,15 @@ struct Gen {
 
   bool emit_life_op() {
     Call c;
-    uint64_t lk = r.below(9);
+    uint64_t lk = r.below(10);
+    if (lk == 9) {
+      c.op = OP_LIFE_MODULE_SEQ;
+      c.p[0] = r.next() >> 8;
+      c.p[1] = (uint64_t)r.range(6, 18);
+      c.p[2] = cfg.ntt120 && r.chance(1, 3);
+      c.p[3] = (uint64_t)r.range(3, cfg.max_log2n + 1);
+      return push_call(c);
+    }
     if (lk == 8) {
       c.op = OP_LIFE_MODULE_PAIR;
       c.p[0] = 1ull << r.range(1, cfg.max_log2n + 2);
